@@ -198,7 +198,7 @@ def harness_assign_view(fname, src_struct, dst_struct=VS, what='owning = view'):
             '  self->base.m_dims = ds; self->m_data.n = ns; self->m_data.p = nv_alloc(ns);\n'
             '  other->base.m_dims = dsrc;\n'
             '  if (nv_alias) { __CPROVER_assume(ns > 0 && 0 <= nv_off && nv_off <= ns && no <= ns - nv_off); other->m_data = self->m_data.p + nv_off; }\n'
-            '  else other->m_data = nv_block(no);\n'
+            '  else other->m_data = (no == 0 && nv_null) ? (double*)0 : nv_block(no);      /* a view of an EMPTY tensor may carry a null data() */\n'
             '  if (0 <= nv_g && nv_g < no) nv_old_g = other->m_data[nv_g];\n'
             f'  nv_thrown = 0;\n  {dst_struct}* ret = {fname}(self, other);\n'
             f'  __CPROVER_assert(ret == self, "{what}: returns *this");\n'
@@ -240,7 +240,9 @@ HARNESS['t_map_move_assign'] = lambda: harness_ms_copy('t_map_move_assign', MS)
 CALLEE['t_map_move_assign'] = 'ms_move_assign'
 # rank >= 2, quick tier: the operations in which size() -- now a NAMED product of the extents -- decides how much is allocated / copied
 QUICK_HIGHER = ['vs_ctor_sizes', 'vs_ctor_dims', 'vs_from_c', 'vs_assign_c', 'vs_assign_m', 'vs_copy_assign', 'vs_move_assign', 'vs_resize_sizes', 'vs_resize_dims',
-                'cs_from_v', 'ms_from_v', 'ms_copy_m', 'ms_assign_v', 't_mem_assign_map', 't_map_move_assign']
+                'cs_from_v', 'ms_from_v', 'ms_copy_m', 'ms_assign_v', 't_mem_assign_map', 't_map_move_assign',
+                # tensor_t templates that forward to the storage: the converting constructors and owning = constant view (separate blocks; DFCC contracts)
+                't_mem_from_cmap', 't_mem_from_map', 't_cmap_from_mem', 't_cmap_from_map', 't_map_from_mem', 't_mem_assign_cmap']
 
 
 class RankSpec:
@@ -337,5 +339,9 @@ def build(tier='quick'):
         out += r2.targets(list(FUNCS1)) + r3.targets(list(FUNCS1))
     else:
         out += r2.targets(QUICK_HIGHER, extras=False) + [r2.target('storage_r2_vs_assign_c_alias', 'vs_assign_c', harness=harness_assign_view('vs_assign_c', CS), enforce_none=True, inline=True)]
+        # tensor_t::operator=(const tensor_t<other storage>&) at rank 2 with a source that may be a view of ALL the destination's own
+        # elements under ANOTHER SHAPE (t = t.reshape(2, 6): same data(), same size(), different dims -- invisible at rank 1)
+        out += [r2.target(f'storage_r2_{c}_alias', c, harness=harness_assign_view(c, src, what='tensor_mem_t = view'), enforce_none=True, inline=True)
+                for c, src in (('t_mem_assign_cmap', CS), ('t_mem_assign_map', MS))]
         out += r3.targets(['vs_assign_c', 'vs_resize_dims', 'ms_copy_m'], extras=False)
     return out
